@@ -45,7 +45,8 @@ OUTCOMES = ['ok', 'listed', 'unlisted', 'exc-listed', 'exc-unlisted', 'undecodab
 FLOORS = {'*': {**{f'last:{o}': 5 for o in OUTCOMES}, 'real-cancellation': 5, 'multi-attempt-3-tracers': 20,
                 'client:sync': 200, 'client:async': 200, 'tracers:0': 20, 'tracers:1': 50, 'tracers:2': 50, 'tracers:3': 50,
                 'ctx:supplied': 100, 'ctx:default': 100, 'kind:single': 100, 'kind:batch': 50, 'kind:notification': 30,
-                'attempts>=2': 100, 'concurrent-requests': 100, 'called-while-handling-another-exception': 100}}
+                'attempts>=2': 100, 'concurrent-requests': 100, 'tracer-style:class': 100, 'tracer-style:instance': 100,
+                'tracer-style:mixed': 100, 'notification-answered-with-a-body:strict': 20, 'notification-answered-with-a-body:non-strict': 20, 'called-while-handling-another-exception': 100}}
 
 
 class Abort(BaseException):
@@ -65,6 +66,32 @@ class Rec(Tracer):
 
     def on_error(self, trace_context, request, error):
         self.log.append((self.idx, 'error', trace_context, request, error))
+
+
+class RecInstance(Tracer):
+    """a tracer whose handlers live on the INSTANCE (assigned from callbacks), not in the class body"""
+
+    def __init__(self, idx, log, mixed=False):
+        self.idx = idx
+        self.log = log
+        if not mixed:
+            self.on_request_begin = lambda trace_context, request: log.append((idx, 'begin', trace_context, request, None))
+        self.on_request_end = lambda trace_context, request, response: log.append((idx, 'end', trace_context, request, response))
+        self.on_error = lambda trace_context, request, error: log.append((idx, 'error', trace_context, request, error))
+
+
+class RecMixed(RecInstance):
+    """begin in the class body, the completion handlers on the instance"""
+
+    def __init__(self, idx, log):
+        super().__init__(idx, log, mixed=True)
+
+    def on_request_begin(self, trace_context, request):
+        self.log.append((self.idx, 'begin', trace_context, request, None))
+
+
+def make_tracer(style, idx, log):
+    return {'class': Rec, 'instance': RecInstance, 'mixed': RecMixed}[style](idx, log)
 
 
 class _TimeShim:
@@ -101,6 +128,7 @@ class Script:
         self.log = log
         self.parked = None
         self.gate = None
+        self.notif_body = None       # what the transport hands back for a notification (normally nothing)
 
     def outcome(self):
         o = self.outcomes[self.idx] if self.idx < len(self.outcomes) else 'ok'
@@ -116,7 +144,7 @@ class Script:
             self.raised[k] = exc
             raise exc
         if is_notification:
-            return None
+            return self.notif_body
         if o == 'undecodable':
             return '{"jsonrpc": "2.0", "id": 1, "resu'
         req = json.loads(text)
@@ -140,11 +168,16 @@ class Unrelated(Exception):
     """an exception the CALLER is handling while it uses the client"""
 
 
-def run_case(ctx, n_tracers, attempts, script, kind, supplied_ctx, is_async, inside_except=False):
+def run_case(ctx, n_tracers, attempts, script, kind, supplied_ctx, is_async, inside_except=False, tracer_style='class',
+             strict=True, notif_body=None):
     ck = 'async' if is_async else 'sync'
     log = []
-    tracers = [Rec(i, log) for i in range(n_tracers)]
+    tracers = [make_tracer(tracer_style if i % 2 == 0 else 'class', i, log) for i in range(n_tracers)]
+    ctx.hit('tracer-style:' + tracer_style)
+    if kind == 'notification' and notif_body is not None:
+        ctx.hit('notification-answered-with-a-body:' + ('strict' if strict else 'non-strict'))
     sc = Script(script, log)
+    sc.notif_body = notif_body
     strategy = retry_mod.RetryStrategy(backoff=retry_mod.PeriodicBackoff(attempts=attempts, interval=0.0), codes={2001},
                                        exceptions=set(RETRY_EXC)) if attempts is not None else None
     cancel_box = {}
@@ -163,7 +196,7 @@ def run_case(ctx, n_tracers, attempts, script, kind, supplied_ctx, is_async, ins
             return sc.respond(o, k, text, is_notification)
 
     cls_ = clientside.AsyncClient if is_async else clientside.SyncClient
-    client = cls_(transport, tracers=tracers, retry_strategy=strategy)
+    client = cls_(transport, tracers=tracers, retry_strategy=strategy, strict=strict)
     tctx = SimpleNamespace(tag='caller') if supplied_ctx else None
     if kind == 'single':
         req = v20.Request('m', [1], id=5)
@@ -205,14 +238,16 @@ def run_case(ctx, n_tracers, attempts, script, kind, supplied_ctx, is_async, ins
             return {'kind': 'error-response', 'code': 2001 if o == 'listed' else 999}
         exc = {'exc-listed': ConnectionError(), 'exc-unlisted': KeyError(), 'undecodable': ValueError(),
                'invalid-doc': DeserializationError(), 'identity': IdentityError(), 'base-exc': Abort(),
-               'cancelled-raised': asyncio.CancelledError(), 'cancel-task': asyncio.CancelledError()}[o]
+               'cancelled-raised': asyncio.CancelledError(), 'cancel-task': asyncio.CancelledError(),
+               'unexpected-body': pjrpc.exceptions.BaseError()}[o]
         return {'kind': 'exception', 'exc': exc}
 
     is_notif = kind == 'notification'
     eff_script = list(script)
     if is_notif:
         # bodies are not read for notifications: response-shaped outcomes all mean "transport returned"
-        eff_script = [o if o in ('exc-listed', 'exc-unlisted', 'base-exc', 'cancelled-raised', 'cancel-task') else 'ok' for o in script]
+        eff_script = [o if o in ('exc-listed', 'exc-unlisted', 'base-exc', 'cancelled-raised', 'cancel-task') else
+                      ('unexpected-body' if (strict and notif_body) else 'ok') for o in script]
     delays = [0.0] * attempts if attempts is not None else None
     outcomes = [kind_of(o) for o in eff_script]
     # for notifications the retry loop still runs around exceptions; model attempts through the generic loop
@@ -228,10 +263,10 @@ def run_case(ctx, n_tracers, attempts, script, kind, supplied_ctx, is_async, ins
         ctx.hit('attempts>=2')
         if n_tracers == 3:
             ctx.hit('multi-attempt-3-tracers')
-    cls = (n_tracers, attempts, consumed, kind, supplied_ctx, ck, inside_except)
+    cls = (n_tracers, attempts, consumed, kind, supplied_ctx, ck, inside_except, tracer_style, strict, notif_body)
     fam = f'{kind}:{ck}:t{n_tracers}' + (':inside-except' if inside_except else '')
     wit = dict(tracers=n_tracers, retry_attempts=attempts, script=script, kind=kind, caller_supplied_context=supplied_ctx,
-               client=ck, outcome=[st, out],
+               client=ck, outcome=[st, out], tracer_handlers=tracer_style, strict=strict, notification_body=notif_body,
                events=[(e[0], e[1]) if e[0] == 'transport' else (e[0], e[1], type(e[4]).__name__) for e in log])
 
     # ---- the automaton over the event log
@@ -335,6 +370,8 @@ def run_case(ctx, n_tracers, attempts, script, kind, supplied_ctx, is_async, ins
         if last in ('ok', 'listed', 'unlisted'):
             if st != 'ret':
                 problem = f'returned-attempt-raised-{type(out).__name__}'
+            elif is_notif and out is not None:
+                problem = 'notification-returned-something'
         else:
             if st != 'exc':
                 problem = 'failed-attempt-did-not-raise'
@@ -458,10 +495,15 @@ def gen(ctx):
             for script in scripts:
                 for _ in range((6 if n <= 2 else 2) if deep else (3 if n <= 1 else 1)):
                     k += 1
-                    yield 'case', dict(n_tracers=(1, 2, 3, 0, 3, 1, 2)[k % 7], attempts=attempts, script=list(script),
-                                       kind=('single', 'batch', 'single', 'notification', 'batch')[k % 5],
+                    kind = ('single', 'batch', 'single', 'notification', 'batch')[k % 5]
+                    extra = {}
+                    if kind == 'notification':
+                        extra = dict(strict=bool((k // 5) % 2), notif_body=NOTIF_BODIES[(k // 10) % len(NOTIF_BODIES)])
+                    yield 'case', dict(n_tracers=(1, 2, 3, 0, 3, 1, 2)[k % 7], attempts=attempts, script=list(script), kind=kind,
                                        supplied_ctx=bool((k // 2) % 2), is_async=is_async,
-                                       inside_except=(k % 4 == 0 and 'cancel-task' not in script))
+                                       inside_except=(k % 4 == 0 and 'cancel-task' not in script),
+                                       tracer_style=('class', 'instance', 'class', 'mixed')[(k // 3) % 4], **extra)
 
 
+NOTIF_BODIES = [None, '', '{"jsonrpc": "2.0", "id": null, "result": 1}', 'garbage', '{"jsonrpc": "2.0", "id": 7, "error": {"code": 1, "message": "m"}}']
 KINDS = {'case': run_case, 'concurrent': run_concurrent}
